@@ -40,3 +40,16 @@ def iter_lines(paths):
             for line in f:
                 if line.strip():
                     yield line
+
+
+def dead_actions(out_path, names):
+    """actions of `names` whose count is 0 in the LAST coverage report of a TLC run (with -coverage TLC prints interim
+    reports while the search is still running; an action that has simply not been reached yet is not dead)"""
+    import re
+    last = {}
+    with open(out_path, errors="replace") as f:
+        for line in f:
+            m = re.match(r"\s*<(\w+) line .*>: (\d+):(\d+)\s*$", line)
+            if m:
+                last[m.group(1)] = (int(m.group(2)), int(m.group(3)))
+    return [a for a in names if a in last and last[a] == (0, 0)]
